@@ -1,6 +1,6 @@
 (* C07 - results depend only on configuration and seed, not on call order or schedule.  Statements only. *)
 From Coq Require Import List ZArith Bool Permutation.
-From MV Require Import Common.Num Core.Machine Core.Config_Proofs Core.DE Core.NM.
+From MV Require Import Common.Num Core.Machine Core.Config_Proofs Core.DE Core.NM Core.Powell.
 Import ListNotations.
 
 (* the order of the Set* configuration calls (at most one per setting) is irrelevant: same state afterwards, hence the same
@@ -25,6 +25,26 @@ Theorem C07_instances : forall (N : Num) (inf : T N) (de2 : bool),
   (forall c p, a_ehist_extra N _ _ (nm_algo N inf) (a_set_pop N _ _ (nm_algo N inf) c p) = a_ehist_extra N _ _ (nm_algo N inf) c).
 Proof. intros. repeat split; reflexivity. Qed.
 Print Assumptions C07_instances.
+
+(* Powell's Finalize logs a pending record; it is trivial on every state with nothing pending (every solver that has not been stepped
+   since its last Finalize, in particular a freshly built one), and the configuration calls keep it so: from such states the order of the
+   configuration calls is irrelevant for Powell as well *)
+Theorem C07_config_order_irrelevant_powell :
+  forall (N : Num) (inf : T N) (cfg1 cfg2 rest : list (op N (pw_in N))) (sc : sys N * pw N),
+  pextra_e N (snd sc) = [] ->
+  Permutation cfg1 cfg2 -> Forall (is_cfg N _) cfg1 -> NoDup (map (kind_of N _) cfg1) ->
+  run N inf _ _ (pw_algo N inf) sc (cfg1 ++ rest) = run N inf _ _ (pw_algo N inf) sc (cfg2 ++ rest) /\
+  trace N inf _ _ (pw_algo N inf) (run N inf _ _ (pw_algo N inf) sc cfg1) rest =
+  trace N inf _ _ (pw_algo N inf) (run N inf _ _ (pw_algo N inf) sc cfg2) rest.
+Proof.
+  intros N inf cfg1 cfg2 rest sc HG.
+  apply (config_order_irrelevant_G N inf _ _ (pw_algo N inf) (fun c => pextra_e N c = [])); auto.
+  - intros s c Hc. cbn [a_finalize pw_algo]. unfold pw_finalize. rewrite Hc. reflexivity.
+Qed.
+Print Assumptions C07_config_order_irrelevant_powell.
+
+Example C07_powell_nonvacuous : forall (N : Num) (inf : T N) ndim, pextra_e N (pw_init N inf ndim) = [].
+Proof. reflexivity. Qed.
 
 (* a map that evaluates its work items in any order (serial, reversed, shuffled, any interleaving of in-process workers that
    each evaluate whole items) returns the same energy for every item and makes the same number of real calls: DE2's
